@@ -168,6 +168,7 @@ type channel struct {
 	running        int32
 	closeErr       error
 	writeLock      sync.Mutex // for sync write
+	messageLock    sync.Mutex // keeps the low-level writes of one outbound message together
 }
 
 // ID get channel id
